@@ -217,6 +217,85 @@ def run(ctx):
     ctx.floor('explicit_raise_sites', 30)
     ctx.floor('partition_add_sites', 3)
 
+    # (6) a step object enters the plan once: what is handed to an add function is freshly constructed on every path ------------------------
+    ADDERS = {'add_step', 'add_plan_step', 'add_step_to_partition'}
+    fresh_fns = set()
+    all_fns = []
+    for f in planner_files(ctx):
+        for n in ast.walk(ctx.src.tree(f)):
+            if isinstance(n, ast.FunctionDef):
+                all_fns.append((f, n))
+
+    def fresh_expr(e, st):
+        if isinstance(e, ast.Call):
+            last = (dotted(e.func) or (e.func.attr if isinstance(e.func, ast.Attribute) else '')).split('.')[-1]
+            if last in step_classes:
+                return True
+            if last in fresh_fns:
+                return True
+        if isinstance(e, (ast.Name, ast.Attribute)):
+            return st.get(norm(e)) == 'fresh'
+        return False
+
+    def analyse(fn):
+        def transfer(s_, st):
+            if isinstance(s_, ast.Assign):
+                st = dict(st)
+                for t in s_.targets:
+                    if isinstance(t, (ast.Name, ast.Attribute)):
+                        if fresh_expr(s_.value, st):
+                            st[norm(t)] = 'fresh'
+                        else:
+                            st.pop(norm(t), None)
+            elif isinstance(s_, (ast.For, ast.AugAssign)):
+                st = dict(st)
+                tg = s_.target
+                for x in ast.walk(tg):
+                    if isinstance(x, ast.Name):
+                        st.pop(x.id, None)
+            return st
+        return Flow(transfer, lambda a, b: {k: v for k, v in a.items() if b.get(k) == v}).run(fn, {})
+    for _ in range(4):
+        before = set(fresh_fns)
+        for f, fn in all_fns:
+            if fn.name in ADDERS or fn.name.startswith('__'):
+                continue
+            res = analyse(fn)
+            rets = [(r, st) for r, st in res.returns if r.value is not None]
+            if rets and all(fresh_expr(r.value, st) for r, st in rets) and res.end is None:
+                fresh_fns.add(fn.name)
+        if fresh_fns == before:
+            break
+    nadd = 0
+    for f, fn in all_fns:
+        res = None
+        for n in walk_no_nested(fn):
+            if not (isinstance(n, ast.Call) and isinstance(n.func, ast.Attribute) and n.func.attr in ADDERS and n.args):
+                continue
+            arg = n.args[0]
+            if fn.name in ADDERS and isinstance(arg, ast.Name) and arg.id in [a.arg for a in fn.args.args]:
+                continue        # the adder hands its own parameter on
+            if fn.name == '__init__' and fn_label(n) == 'QueryPlan.__init__':
+                ctx.note('QueryPlan.__init__(steps=...) adds the steps its caller supplies (used to build expected plans): the caller owns their freshness')
+                continue
+            nadd += 1
+            if res is None:
+                res = analyse(fn)
+            cur = n
+            st = None
+            while cur is not None:
+                if isinstance(cur, ast.stmt) and id(cur) in res.at:
+                    st = res.at[id(cur)]
+                    break
+                cur = getattr(cur, '_parent', None)
+            ok = fresh_expr(arg, st or {})
+            ctx.ob('C09.added-once', f'{fn_label(n)}:{norm(n)[:60]}', ok,
+                   f'{fn_label(n)}: `{norm(arg)[:50]}` handed to {n.func.attr}() is not a step constructed on every path that reaches the call (it may come '
+                   f'from a cache / an earlier add): the same step object would sit in the plan twice, keeping its first number, so the steps are no longer '
+                   f'numbered consecutively in list order', file=f, line=n.lineno)
+    ctx.setcount('add_sites', nadd)
+    ctx.floor('add_sites', 20)
+
 
 def check_partition(ctx, model):
     """In PlanJoinTablesQuery, a MapReduceStep is added to the plan while still open (sub-steps are appended to it
